@@ -149,10 +149,18 @@ Qed.
 (* ------------------------------------------------------------------ *)
 (* B. decisions are stable under more input; framing by induction       *)
 (* ------------------------------------------------------------------ *)
-Section Serve.
-  Variables (handlers : list (list Z * hresp)) (stall : list (list Z)) (keep : bool).
-  Notation decide := (http_decide handlers stall).
+(* The framing argument needs two facts about the decision function only: *)
+Definition stable_decision (decide : list Z -> hdecision) : Prop :=
+  forall buf chunk, decide buf <> HNeedMore -> decide (buf ++ chunk) = decide buf.
+Definition consuming_decision (decide : list Z -> hdecision) : Prop :=
+  forall buf, match decide buf with
+              | HRespond len _ _ | HStall len | HThrow len => 4 <= len <= Z.of_nat (length buf)
+              | _ => True
+              end.
 
+Section HttpDecide.
+  Variables (handlers : list (list Z * hresp)) (stall : list (list Z)).
+  Notation decide := (http_decide handlers stall).
   Lemma decide_cases buf :
     (decide buf = HNeedMore /\ find_request_len buf (Z.of_nat (length buf)) = Ok (-1)) \/
     (exists len, 4 <= len <= Z.of_nat (length buf) /\ find_request_len buf (Z.of_nat (length buf)) = Ok len).
@@ -190,6 +198,14 @@ Section Serve.
     - destruct (http_respond r (r_headers req)); exact L.
     - destruct (existsb (list_eqb (r_path req)) stall); exact L.
   Qed.
+
+End HttpDecide.
+
+Section Serve.
+  Variable decide : list Z -> hdecision.
+  Variable keep : bool.
+  Hypothesis decide_stable : stable_decision decide.
+  Hypothesis decide_consumes : consuming_decision decide.
 
   (* The connection as a function of the bytes received so far.  [drain] is the
      chain on_read -> async_write -> on_write -> post(on_read(0)) -> ... that
@@ -483,3 +499,286 @@ Proof.
   destruct (http_stop_frees_the_port cx srv w e D C Bd Ne R U) as (A1 & _).
   apply SockProofs.connect_refused_otherwise. intros r Hr. fold a in A1. fold w' in A1. rewrite A1 in Hr. discriminate.
 Qed.
+
+(* ------------------------------------------------------------------ *)
+(* E. the two instances: the HTTP server and the HTTP proxy             *)
+(* ------------------------------------------------------------------ *)
+Lemma http_decide_stable handlers stall : stable_decision (http_decide handlers stall).
+Proof. intros buf chunk. apply decide_stable. Qed.
+Lemma http_decide_consuming handlers stall : consuming_decision (http_decide handlers stall).
+Proof. intros buf. apply decide_consumes. Qed.
+
+Definition http_serve handlers stall keep := serve (http_decide handlers stall) keep.
+Definition http_feed handlers stall keep := feed (http_decide handlers stall) keep.
+
+Theorem http_responses_independent_of_segmentation handlers stall keep chunks buf out :
+  fold_left (http_feed handlers stall keep) chunks (http_serve handlers stall keep buf out)
+  = http_serve handlers stall keep (buf ++ concat chunks) out.
+Proof.
+  apply responses_independent_of_segmentation;
+  [apply http_decide_stable|apply http_decide_consuming].
+Qed.
+
+Theorem http_any_two_cuts_agree handlers stall keep chunks1 chunks2 :
+  concat chunks1 = concat chunks2 ->
+  fold_left (http_feed handlers stall keep) chunks1 (http_serve handlers stall keep [] [])
+  = fold_left (http_feed handlers stall keep) chunks2 (http_serve handlers stall keep [] []).
+Proof.
+  apply any_two_cuts_agree; [apply http_decide_stable|apply http_decide_consuming].
+Qed.
+
+Theorem http_serve_request_then_rest handlers stall keep req rest out len o close :
+  http_decide handlers stall req = HRespond len o close -> len = Z.of_nat (length req) ->
+  http_serve handlers stall keep (req ++ rest) out =
+    if close || negb keep then (CClosed, out ++ [o]) else http_serve handlers stall keep rest (out ++ [o]).
+Proof.
+  apply serve_request_then_rest; [apply http_decide_stable|apply http_decide_consuming].
+Qed.
+
+Theorem http_serve_stall_is_silent handlers stall keep req rest out len :
+  http_decide handlers stall req = HStall len -> http_serve handlers stall keep (req ++ rest) out = (CStalled, out).
+Proof. apply serve_stall_is_silent. apply http_decide_stable. Qed.
+
+Theorem http_serve_malformed_closes handlers stall keep req rest out :
+  http_decide handlers stall req = HBad -> http_serve handlers stall keep (req ++ rest) out = (CClosed, out).
+Proof. apply serve_malformed_closes. apply http_decide_stable. Qed.
+
+(* the proxy: its decision as an instance *)
+Definition proxy_hdecide (v : variant) (buf : list Z) : hdecision :=
+  match proxy_decide v buf with
+  | PNeedMore => HNeedMore
+  | PForward len out _ _ => HRespond len out false
+  | PBad => HBad
+  end.
+
+Lemma proxy_decide_cases v buf :
+  (proxy_decide v buf = PNeedMore /\ find_request_len buf (Z.of_nat (length buf)) = Ok (-1)) \/
+  (exists len, 4 <= len <= Z.of_nat (length buf) /\ find_request_len buf (Z.of_nat (length buf)) = Ok len).
+Proof.
+  destruct (find_request_len_good buf (Z.of_nat (length buf))) as [r H].
+  destruct (find_request_len_spec buf _ r H) as [[E _]|(p & E & P0 & P4 & _)].
+  - left. subst r. split; [|exact H]. unfold proxy_decide. rewrite H. reflexivity.
+  - right. exists r. split; [lia|exact H].
+Qed.
+
+Theorem proxy_decide_stable_raw v buf chunk :
+  proxy_decide v buf <> PNeedMore -> proxy_decide v (buf ++ chunk) = proxy_decide v buf.
+Proof.
+  intros NM. destruct (proxy_decide_cases v buf) as [[E _]|(len & L & H)]; [contradiction|].
+  pose proof (find_request_len_stable buf chunk len H ltac:(lia)) as H'.
+  unfold proxy_decide. rewrite H, H'.
+  replace (len <? 0) with false by (symmetry; apply Z.ltb_ge; lia).
+  rewrite <- (parse_request_ext buf (buf ++ chunk) len (agree_app buf chunk len ltac:(lia))).
+  reflexivity.
+Qed.
+
+Lemma proxy_decide_stable v : stable_decision (proxy_hdecide v).
+Proof.
+  intros buf chunk NM. unfold proxy_hdecide in *.
+  rewrite proxy_decide_stable_raw; [reflexivity|].
+  intro E. rewrite E in NM. contradiction.
+Qed.
+
+Lemma proxy_decide_consuming v : consuming_decision (proxy_hdecide v).
+Proof.
+  intros buf. unfold proxy_hdecide.
+  destruct (proxy_decide_cases v buf) as [[E _]|(len & L & H)]; [rewrite E; exact I|].
+  unfold proxy_decide. rewrite H.
+  replace (len <? 0) with false by (symmetry; apply Z.ltb_ge; lia).
+  destruct (parse_request buf len) as [req| | |]; try exact I.
+  destruct (rewrite_request v req) as [[[out host] port]|]; [exact L|exact I].
+Qed.
+
+(* the requests queued for the origin do not depend on how the client's bytes were cut *)
+Theorem proxy_forwarding_independent_of_segmentation v chunks buf out :
+  fold_left (feed (proxy_hdecide v) true) chunks (serve (proxy_hdecide v) true buf out)
+  = serve (proxy_hdecide v) true (buf ++ concat chunks) out.
+Proof.
+  apply responses_independent_of_segmentation; [apply proxy_decide_stable|apply proxy_decide_consuming].
+Qed.
+
+(* one forwarded request per client request, in order; a request the proxy rejects ends the connection *)
+Theorem proxy_forwards_each_request_in_order v req rest out len o host port :
+  proxy_decide v req = PForward len o host port -> len = Z.of_nat (length req) ->
+  serve (proxy_hdecide v) true (req ++ rest) out = serve (proxy_hdecide v) true rest (out ++ [o]).
+Proof.
+  intros D L.
+  rewrite (serve_request_then_rest (proxy_hdecide v) true (proxy_decide_stable v) (proxy_decide_consuming v)
+             req rest out len o false); [reflexivity| |exact L].
+  unfold proxy_hdecide. rewrite D. reflexivity.
+Qed.
+
+Theorem proxy_rejects_and_closes v req rest out :
+  proxy_decide v req = PBad -> serve (proxy_hdecide v) true (req ++ rest) out = (CClosed, out).
+Proof.
+  intros D. apply serve_malformed_closes; [apply proxy_decide_stable|].
+  unfold proxy_hdecide. rewrite D. reflexivity.
+Qed.
+
+(* the socket-level loop executes the decision *)
+Theorem proxy_requests_follows_decision f cx app w :
+  proxy_requests (S f) cx app w =
+    match proxy_decide (cv cx) (px_cin (get_proxy w app)) with
+    | PNeedMore => proxy_read_client app w
+    | PForward len out host port =>
+        let '(w, c0, ok) := proxy_forward cx app out host port w in
+        if ok then
+          let p := get_proxy w app in
+          let w := set_proxy w app (p <| px_cin := skipn (Z.to_nat len) (px_cin p) |>) in
+          let (w, c1) := proxy_requests f cx app w in (w, c0 ++ c1)
+        else let (w, c1) := proxy_close_connection cx app w in (w, c0 ++ c1)
+    | PBad => proxy_close_connection cx app w
+    end.
+Proof. reflexivity. Qed.
+
+(* responses travel verbatim: what was read from the origin is what is written to the client *)
+Theorem proxy_relays_verbatim cx app w n d data :
+  proxy_callback cx app 5 (EC_OK :: n :: n :: d :: data) w
+  = start_write_all cx (px_client app) data 65536 (hid_app app 6) w /\
+  proxy_callback cx app 6 [EC_OK; n] w = proxy_read_server app w.
+Proof. split; reflexivity. Qed.
+
+(* a failed lookup and a failed connect answer 503 *)
+Theorem proxy_503 cx app w e n eps :
+  (e <> EC_OK \/ n = 0) ->
+  proxy_callback cx app 2 (e :: n :: eps) w
+  = proxy_error cx app 503 S_503A (set_proxy w app (get_proxy w app <| px_resolving := false |>)).
+Proof.
+  intros H. unfold proxy_callback.
+  assert (E : negb (e =? EC_OK) || (n =? 0) = true).
+  { destruct H as [H|H]; [apply Z.eqb_neq in H; rewrite H; reflexivity|subst n; apply orb_true_r]. }
+  rewrite E. reflexivity.
+Qed.
+
+(* ------------------------------------------------------------------ *)
+(* F. forward_request: the origin form                                  *)
+(* ------------------------------------------------------------------ *)
+Lemma list_eqb_refl a : list_eqb a a = true.
+Proof.
+  unfold list_eqb. rewrite Nat.eqb_refl. simpl.
+  induction a as [|x r IH]; simpl; [reflexivity|]. rewrite Z.eqb_refl. exact IH.
+Qed.
+
+Lemma find_first_go c : forall s i,
+  (fix go (s : list Z) (i : nat) : option nat :=
+     match s with [] => None | x :: r => if x =? c then Some i else go r (S i) end) s i
+  = match find_first c s with Some k => Some (i + k)%nat | None => None end.
+Proof.
+  unfold find_first. induction s as [|x r IH]; intros i; [reflexivity|].
+  destruct (x =? c); [f_equal; lia|].
+  rewrite (IH (S i)), (IH 1%nat). destruct (_ r 0%nat); [f_equal; lia|reflexivity].
+Qed.
+
+Lemma find_first_cons c x r :
+  find_first c (x :: r) = if x =? c then Some O else match find_first c r with Some k => Some (S k) | None => None end.
+Proof.
+  unfold find_first at 1. destruct (x =? c); [reflexivity|]. rewrite find_first_go. reflexivity.
+Qed.
+
+Lemma find_first_skips c a r : ~ In c a -> find_first c (a ++ c :: r) = Some (length a).
+Proof.
+  induction a as [|x a IH]; intros H.
+  - simpl. rewrite find_first_cons, Z.eqb_refl. reflexivity.
+  - simpl app. rewrite find_first_cons.
+    assert (x =? c = false) as E by (apply Z.eqb_neq; intro; subst; apply H; left; reflexivity).
+    rewrite E, IH by (intro; apply H; right; assumption). reflexivity.
+Qed.
+
+Lemma find_from_app c pre : forall x,
+  find_from c (pre ++ x) (length pre) = match find_first c x with Some k => Some (length pre + k)%nat | None => None end.
+Proof.
+  induction pre as [|p pre IH]; intros x; simpl.
+  - destruct x; cbn [find_from]; destruct (find_first c _); reflexivity.
+  - rewrite IH. destruct (find_first c x); reflexivity.
+Qed.
+
+Lemma find_last_none c x : ~ In c x -> find_last c x = None.
+Proof.
+  induction x as [|y x IH]; intros H; [reflexivity|]. simpl.
+  rewrite IH by (intro; apply H; right; assumption).
+  assert (y =? c = false) as E by (apply Z.eqb_neq; intro; subst; apply H; left; reflexivity).
+  now rewrite E.
+Qed.
+
+Lemma find_last_app_absent c pre x : ~ In c x -> find_last c (pre ++ x) = find_last c pre.
+Proof.
+  intros H. induction pre as [|p pre IH]; simpl; [now apply find_last_none|]. now rewrite IH.
+Qed.
+
+Definition render_headers (hs : list (list Z * list Z)) : list Z :=
+  flat_map (fun h => fst h ++ [58; 32] ++ snd h ++ [13; 10]) hs.
+Definition has_host (hs : list (list Z * list Z)) : bool := existsb (fun h => list_eqb (fst h) S_HOST) hs.
+
+(* A request with an absolute http URI leaves in origin form: same method, the
+   path and query of the URI, all headers, and a Host header when there was none *)
+Theorem rewrite_request_origin_form v req authority path' :
+  r_req req = S_HTTP ++ authority ++ 47 :: path' -> ~ In 47 authority ->
+  exists host port,
+    rewrite_request v req =
+      Some (r_method req ++ [32] ++ (47 :: path') ++ S_HTTP11 ++ [13; 10] ++ render_headers (r_headers req)
+            ++ (if has_host (r_headers req) then [] else S_HOST ++ [58; 32] ++ host ++ [13; 10]) ++ [13; 10],
+            host, port).
+Proof.
+  intros U NS. unfold rewrite_request. rewrite U.
+  change (firstn 7 (S_HTTP ++ authority ++ 47 :: path')) with S_HTTP.
+  rewrite list_eqb_refl. cbn [negb].
+  assert (F : find_from 47 (S_HTTP ++ authority ++ 47 :: path') 7 = Some (7 + length authority)%nat).
+  { change 7%nat with (length S_HTTP) at 1. rewrite find_from_app, find_first_skips by exact NS. reflexivity. }
+  rewrite F.
+  assert (K : skipn (7 + length authority) (S_HTTP ++ authority ++ 47 :: path') = 47 :: path').
+  { change (S_HTTP ++ authority ++ 47 :: path') with (firstn 7 S_HTTP ++ (authority ++ 47 :: path')).
+    rewrite app_assoc. rewrite skipn_app.
+    replace (skipn (7 + length authority) (firstn 7 S_HTTP ++ authority)) with (@nil Z)
+      by (symmetry; apply skipn_all2; rewrite app_length; simpl; lia).
+    rewrite app_length. simpl length. replace (7 + length authority - (7 + length authority))%nat with O by lia.
+    reflexivity. }
+  rewrite K. eexists _, _. reflexivity.
+Qed.
+
+(* without a port in the authority the origin is contacted on port 80 and named as written *)
+Theorem rewrite_request_default_port v req authority path' :
+  r_req req = S_HTTP ++ authority ++ 47 :: path' -> ~ In 47 authority -> ~ In 58 authority ->
+  (forall r, authority <> 91 :: r) ->
+  exists out, rewrite_request v req = Some (out, authority, 80).
+Proof.
+  intros U NS NC NB. unfold rewrite_request. rewrite U.
+  change (firstn 7 (S_HTTP ++ authority ++ 47 :: path')) with S_HTTP.
+  rewrite list_eqb_refl. cbn [negb].
+  assert (F : find_from 47 (S_HTTP ++ authority ++ 47 :: path') 7 = Some (7 + length authority)%nat).
+  { change 7%nat with (length S_HTTP) at 1. rewrite find_from_app, find_first_skips by exact NS. reflexivity. }
+  rewrite F.
+  assert (Hd : firstn (7 + length authority) (S_HTTP ++ authority ++ 47 :: path') = S_HTTP ++ authority).
+  { rewrite app_assoc. rewrite firstn_app.
+    replace (7 + length authority - length (S_HTTP ++ authority))%nat with O by (rewrite app_length; simpl; lia).
+    rewrite firstn_all2 by (rewrite app_length; simpl; lia). simpl. now rewrite app_nil_r. }
+  rewrite Hd.
+  rewrite (find_last_app_absent 58 S_HTTP authority NC).
+  assert (NB2 : find_last 93 (S_HTTP ++ authority) = find_last 93 (S_HTTP ++ authority)) by reflexivity.
+  change (find_last 58 S_HTTP) with (Some 4%nat).
+  assert (E : (if d29_proxy_v6_authority v
+               then match find_last 93 (S_HTTP ++ authority), Some 4%nat with
+                    | Some b, Some e => if Nat.ltb e b then None else Some 4%nat
+                    | _, _ => Some 4%nat
+                    end
+               else Some 4%nat) = Some 4%nat \/
+              (if d29_proxy_v6_authority v
+               then match find_last 93 (S_HTTP ++ authority), Some 4%nat with
+                    | Some b, Some e => if Nat.ltb e b then None else Some 4%nat
+                    | _, _ => Some 4%nat
+                    end
+               else Some 4%nat) = None).
+  { destruct (d29_proxy_v6_authority v); [|left; reflexivity].
+    destruct (find_last 93 (S_HTTP ++ authority)) as [b|]; [|left; reflexivity].
+    destruct (Nat.ltb 4 b); [right|left]; reflexivity. }
+  assert (SK : skipn 7 (S_HTTP ++ authority) = authority) by reflexivity.
+  assert (SB : strip_brackets authority = authority).
+  { unfold strip_brackets. destruct authority as [|a0 ar]; [reflexivity|].
+    assert (a0 =? 91 = false) as N by (apply Z.eqb_neq; intro; subst; eapply NB; reflexivity).
+    rewrite N. reflexivity. }
+  destruct E as [E|E]; rewrite E; cbn [Nat.ltb Nat.leb]; rewrite SK, SB; eexists; reflexivity.
+Qed.
+
+(* a request whose target is not an absolute http URI is rejected (the connection is closed) *)
+Theorem rewrite_request_rejects_other_forms v req :
+  list_eqb (firstn 7 (r_req req)) S_HTTP = false -> rewrite_request v req = None.
+Proof. intros H. unfold rewrite_request. rewrite H. reflexivity. Qed.
